@@ -168,7 +168,8 @@ func (w *verifWorld) checkC03() {
 // documented rules give it, and the kubelet encoding of its capacity as weight.
 func (w *verifWorld) checkEligibility(c *verifContainer) {
 	g := w.grantOf(c)
-	if g == nil {
+	if g == nil || g.cpuType == cpuPreserve {
+		// a cpu.preserve container is left as it is: no exclusive CPUs, no cpu.shares from the policy
 		return
 	}
 	m := int(c.milliCPU)
